@@ -18,6 +18,7 @@ type instCtx struct {
 	decls   []string
 	skolems map[string][]string // sort -> constants
 	n       int
+	must    map[string]bool // when set: only tuples that use at least one of these terms
 }
 
 func sxAtom(s string) *sx { return &sx{atom: s} }
@@ -323,11 +324,20 @@ func (ic *instCtx) instantiate(x *sx, pos bool, cands map[string][]string, budge
 		idx := make([]int, len(vars))
 		for {
 			m := map[string]*sx{}
+			uses := ic.must == nil
 			for i, b := range vars {
 				m[b.list[0].atom] = sxAtom(lists[i][idx[i]])
+				if ic.must[lists[i][idx[i]]] {
+					uses = true
+				}
 			}
-			inst := substSx(stripAttr(x.list[2]), m)
-			conj.list = append(conj.list, ic.instantiate(inst, pos, cands, budget))
+			if uses {
+				inst := substSx(stripAttr(x.list[2]), m)
+				save := ic.must
+				ic.must = nil // nested quantifiers of a selected instance are instantiated fully
+				conj.list = append(conj.list, ic.instantiate(inst, pos, cands, budget))
+				ic.must = save
+			}
 			k := len(vars) - 1
 			for k >= 0 {
 				idx[k]++
@@ -340,6 +350,9 @@ func (ic *instCtx) instantiate(x *sx, pos bool, cands map[string][]string, budge
 			if k < 0 {
 				break
 			}
+		}
+		if len(conj.list) == 1 {
+			return sxAtom(ternary(pos, "true", "false"))
 		}
 		if len(conj.list) == 2 {
 			return conj.list[1]
@@ -488,7 +501,7 @@ func (c *Ctx) instantiatedQuery(goalNeg string, extra []string) (string, bool) {
 	// two rounds: existentials assumed inside instances introduce new skolems, which are
 	// candidates for the goal's universals and for a second round over the assumptions
 	var body strings.Builder
-	budget := 2500
+	budget := 1500
 	round := func() {
 		for _, p := range parsed {
 			if !containsQuant(p) {
@@ -512,15 +525,22 @@ func (c *Ctx) instantiatedQuery(goalNeg string, extra []string) (string, bool) {
 	}
 	round()
 	grew := false
+	must := map[string]bool{}
 	for srt, ks := range ic.skolems {
 		if len(ks) > known[srt] {
+			for _, k := range ks[known[srt]:] {
+				must[k] = true
+			}
 			cands[srt] = append(cands[srt], ks[known[srt]:]...)
 			grew = true
 		}
 	}
-	if grew {
-		budget += 2500
+	if grew && len(must) <= 24 {
+		// second round: only instances that use a witness introduced by the first round
+		budget += 1500
+		ic.must = must
 		round()
+		ic.must = nil
 	}
 	// universals left in the (skolemised, asserted) negated goal are instantiated too:
 	// that weakens the goal side, which is sound for an unsat answer
